@@ -182,7 +182,7 @@ def compare_with_model(ctx, spec, res, name, inp):
             elif kind in ("timeout", "lose-clean", "lose-error", "connectfailed"):
                 mo = mout[off + k - 1]
                 st = rev[-1]
-                want = "status=%s stop=%s" % (st["status"], st["pending_stop"] if st["pending_stop"] is not None else (st["stopped"] if st["stopped"] is not None else "none"))
+                want = "status=%s stop=%s" % (st["status"], st["stopped"] if st["stopped"] is not None else (st["pending_stop"] if st["pending_stop"] is not None else "none"))
                 if mo != want:
                     ctx.disagree(name, {"input": inp, "event": kind, "impl": want, "model": mo})
                     return
@@ -333,7 +333,7 @@ def drive(r, spec, respond="random", faults=None, max_steps=80):
                     note("recv", v.feed(part))
         # after the script: the connection goes down (vncdo closed it, so the transport reports a clean close)
         flat = [t for e in res["events"] for t in e[1]]
-        if "close" in flat and not any(e[0].startswith("lose") for e in res["events"]):
+        if "close" in flat and not any(e[0].startswith("lose") for e in res["events"]) and v.reactor.stopped_at is None:
             spec.events.append(("lose", True))
             note("lose-clean", v.lose(True))
             while v.reactor.getDelayedCalls() and v.reactor.stopped_at is None:
